@@ -45,19 +45,19 @@ func init() {
 	})
 	register(&Prop{
 		ID:    "C13",
-		Rules: []func(*core.Ctx){RLim, RLim5, RQuickSame, RErrProp, RErrIdent, RStackRel},
+		Rules: []func(*core.Ctx){RLim, RLim5, RQuickSame, RErrProp, RErrIdent, RStackRel, RReleaseOwn},
 		Explanation: "R-LIM1 who-may-allocate the backtracking stack and SSA proof that every allocation length is clamped by the limit; R-LIM2 who-may-read the limit and forward slice of its value (sizes, bounds, branch conditions, bool result only) plus the end-relative copy/shift shape; R-LIM3 error discipline of ensureStorage/goTo/backtrack/execute and single producer of ErrBacktrackingStackLimit; R-LIM4 push budget per opcode and per emitFragment path against the ensureStorage multiplier, capacity-check comparisons, who-writes runtrack[...]. " +
 			"These are the static ingredients of 'never more than L slots, never a panic, no other influence'. The runtime invariant (free >= K*TrackCount at each backward jump suffices until the next) is NOT proven.",
 	})
 	register(&Prop{
 		ID:    "C12",
-		Rules: []func(*core.Ctx){RStale, RPool, RQuickSame, RSelfRun, RLoopMatch, RCachePair, RStackRel, RStartSet},
+		Rules: []func(*core.Ctx){RStale, RPool, RQuickSame, RSelfRun, RLoopMatch, RCachePair, RStackRel, RStartSet, RRunmatchOwn, RReleaseOwn, RUnits},
 		Explanation: "R-STALE: interprocedural must-write / may-read-before-write analysis on SSA over every field of the pooled Runner and of the Match it owns, starting at (*Runner).scan with all non-persistent fields stale; R-RESTORE, R-DETACH, R-BUFLEN, R-CACHEKEY: pairing / ordering checks on the pool return path, the detach of handed-out matches, pooled buffer re-slicing and the replacement cache key. " +
 			"Necessary for history independence (a field read before written leaks the previous call). Equality with a fresh Regexp as such is NOT decided.",
 	})
 	register(&Prop{
 		ID:    "C11",
-		Rules: []func(*core.Ctx){RFx, RLock, RClockEnd, ROwn, RProtoCopy, RUnlock, RNoAlias, RExitFresh},
+		Rules: []func(*core.Ctx){RFx, RLock, RClockEnd, ROwn, RProtoCopy, RUnlock, RNoAlias, RExitFresh, RReleaseOwn, RNoUnsafe, RBufEscape},
 		Explanation: "R-FX effect confinement: whole-program shared-derived taint on SSA over everything reachable from the match-time API; every write whose target derives from a shared Regexp / Code / global must be one of the lock- or atomic-protected structures. R-LOCK lockset dataflow for those structures. R-OWN ownership of pooled runners and buffers. " +
 			"Decides data-race freedom of the enumerated shared state (a necessary condition of C11). That concurrent results equal sequential ones is NOT decided beyond race freedom plus C12's independence.",
 	})
@@ -93,7 +93,7 @@ func init() {
 	})
 	register(&Prop{
 		ID:    "C15",
-		Rules: []func(*core.Ctx){RDirAcc, RDirBits, RReverse, RLookDir, RDirCtx, RDirTrunc, RNonNegLen, RAnchorSib, RBmDir, RSib, rDirFoldOnly, RLookFact, REndChild, RTextEnd, REndDir, RDirCount},
+		Rules: []func(*core.Ctx){RDirAcc, RDirBits, RReverse, RLookDir, RDirCtx, RDirTrunc, RNonNegLen, RAnchorSib, RBmDir, RSib, rDirFoldOnly, RLookFact, REndChild, RTextEnd, REndDir, RDirCount, RStartSent},
 		Explanation: "Structural carriers of direction: R-DIRACC (who may move the text position), R-DIRBITS (every text-consuming emit carries the node's Rtl bit), R-REVERSE (concatenations are attached reversed), R-LOOKDIR (lookahead clears / lookbehind sets the direction), R-DIRCTX (left-to-right-only reasoning stays in left-to-right context), R-SIB (sibling handlers agree, including on bump()), R-DIRFOLD (folds over the match sequence are direction-aware). " +
 			"That each right-to-left branch computes the mirrored result is NOT decided.",
 	})
@@ -135,13 +135,13 @@ func init() {
 	})
 	register(&Prop{
 		ID:    "C09",
-		Rules: []func(*core.Ctx){RRepConst, RRepCases, RRepID, RFoldExit, RCommitPos, RCompact, RLoopMatch, rDirFoldOnly, RSlot, RCapsKey, RCachePair, RCompactSib, RFoldSrc, RWholeText, RErrProp, RSplitStride, RRewindFirst, RDollarLit, RUnitCmp},
+		Rules: []func(*core.Ctx){RRepConst, RRepCases, RRepID, RFoldExit, RCommitPos, RCompact, RLoopMatch, rDirFoldOnly, RSlot, RCapsKey, RCachePair, RCompactSib, RFoldSrc, RWholeText, RErrProp, RSplitStride, RRewindFirst, RDollarLit, RUnitCmp, RStartSent, RUnits},
 		Explanation: "R-REPCONST (encoder and decoder of replacement rules are the same affine map over equal constants), R-REPCASES (every special token has an arm in both expansion functions; the right-to-left expansion collects pieces last-to-first), R-COMPACT (balancing compaction precedes every expansion of the reused match; count discipline of the replace loops), R-DIRFOLD (Split and the replace drivers are direction-aware), R-SLOT (group numbers reach slots through the maps, including inside Split). " +
 			"That the pieces are concatenated with the right text in between, $-grammar ambiguities and identity of $& are NOT decided.",
 	})
 	register(&Prop{
 		ID:    "C14",
-		Rules: []func(*core.Ctx){RLock, RClockEnd, RClockState, RRestart, RPoll, RPeriod, REndCover, RFreshRead, RTickSum, RSelfRun, rStaleOnly, RSentConst, RErrProp, RExitFresh, RNoWrap, RErrIdent, RStartSet},
+		Rules: []func(*core.Ctx){RLock, RClockEnd, RClockState, RRestart, RPoll, RPeriod, REndCover, RFreshRead, RTickSum, RSelfRun, rStaleOnly, RSentConst, RErrProp, RExitFresh, RNoWrap, RErrIdent, RStartSet, RIgnoreTO, RPadPeriod},
 		Explanation: "Structural skeleton of the timeout machinery only: R-LOCK (fast.start/running under fast.mu, the clock word through sync/atomic), R-CLOCKEND (the clock's end is only raised, under the lock), R-CLOCKSTATE (one place spawns the clock goroutine, under !running; only runClock clears running, after its loop), R-RESTART (a deadline beyond the clock's end always extends the clock), R-POLL (the deadline is polled in scan's and the interpreter's loops), R-STALE (timeout state of a pooled Runner is re-established per call). " +
 			"Every timing statement of the property (no earlier than d, no later than d + a few periods, the stale-clock refresh being right, the goroutine exiting) is NOT decided.",
 	})
